@@ -474,11 +474,14 @@ spif_linked_list_dup(spif_linked_list_t self)
     ASSERT_RVAL(!SPIF_LIST_ISNULL(self), (spif_linked_list_t) NULL);
     tmp = spif_linked_list_new();
     memcpy(tmp, self, SPIF_SIZEOF_TYPE(linked_list));
-    tmp->head = spif_linked_list_item_dup(self->head);
-    for (src = self->head, dest = tmp->head; src->next; src = src->next, dest = dest->next) {
-        dest->next = spif_linked_list_item_dup(src->next);
+    tmp->head = (spif_linked_list_item_t) NULL;
+    if (!SPIF_LINKED_LIST_ITEM_ISNULL(self->head)) {
+        tmp->head = spif_linked_list_item_dup(self->head);
+        for (src = self->head, dest = tmp->head; src->next; src = src->next, dest = dest->next) {
+            dest->next = spif_linked_list_item_dup(src->next);
+        }
+        dest->next = (spif_linked_list_item_t) NULL;
     }
-    dest->next = (spif_linked_list_item_t) NULL;
     return tmp;
 }
 
@@ -491,11 +494,14 @@ spif_linked_list_vector_dup(spif_linked_list_t self)
     ASSERT_RVAL(!SPIF_LIST_ISNULL(self), (spif_linked_list_t) NULL);
     tmp = spif_linked_list_vector_new();
     memcpy(tmp, self, SPIF_SIZEOF_TYPE(linked_list));
-    tmp->head = spif_linked_list_item_dup(self->head);
-    for (src = self->head, dest = tmp->head; src->next; src = src->next, dest = dest->next) {
-        dest->next = spif_linked_list_item_dup(src->next);
+    tmp->head = (spif_linked_list_item_t) NULL;
+    if (!SPIF_LINKED_LIST_ITEM_ISNULL(self->head)) {
+        tmp->head = spif_linked_list_item_dup(self->head);
+        for (src = self->head, dest = tmp->head; src->next; src = src->next, dest = dest->next) {
+            dest->next = spif_linked_list_item_dup(src->next);
+        }
+        dest->next = (spif_linked_list_item_t) NULL;
     }
-    dest->next = (spif_linked_list_item_t) NULL;
     return tmp;
 }
 
@@ -508,11 +514,14 @@ spif_linked_list_map_dup(spif_linked_list_t self)
     ASSERT_RVAL(!SPIF_LIST_ISNULL(self), (spif_linked_list_t) NULL);
     tmp = spif_linked_list_map_new();
     memcpy(tmp, self, SPIF_SIZEOF_TYPE(linked_list));
-    tmp->head = spif_linked_list_item_dup(self->head);
-    for (src = self->head, dest = tmp->head; src->next; src = src->next, dest = dest->next) {
-        dest->next = spif_linked_list_item_dup(src->next);
+    tmp->head = (spif_linked_list_item_t) NULL;
+    if (!SPIF_LINKED_LIST_ITEM_ISNULL(self->head)) {
+        tmp->head = spif_linked_list_item_dup(self->head);
+        for (src = self->head, dest = tmp->head; src->next; src = src->next, dest = dest->next) {
+            dest->next = spif_linked_list_item_dup(src->next);
+        }
+        dest->next = (spif_linked_list_item_t) NULL;
     }
-    dest->next = (spif_linked_list_item_t) NULL;
     return tmp;
 }
 
